@@ -157,6 +157,7 @@ PROPS["C01"] = dict(
              dict(suite="e2e", quick=2500, thorough=60000, thorough_seeds=4, judge="program"),
              dict(suite="optarith", quick=1200, thorough=60000, judge="tie"),
              dict(suite="optdse", quick=3000, thorough=120000, judge="tie"),
+             dict(suite="optrun", quick=700, thorough=40000, judge="tie"),
              dict(suite="levelcap", quick=400, thorough=20000, judge="const"),
              dict(suite="irecho", quick=300, thorough=5000, judge="tie")],
     corpus=["programs"], corpus_judge="program",
@@ -181,9 +182,10 @@ PROPS["C01"] = dict(
           "differ (witness); every hypothesis is shown necessary by a witness, including that a calc with a repeated "
           "target WOULD be miscompiled (duplicate_targets_unsound; the optimizer never builds one); totality = shape "
           "agreement (eliminate_none_iff).",
-    not_proved="optimize (levels 1..3) has no complete Lean model: the rebuild round (state tracking, symbolic "
-               "substitution, loop motion plumbing, hash-order dependent emission order) is not ported; modelled and proved are "
-               "its arithmetic cores and its dead store elimination pass, whose soundness hypotheses (AnalSound, "
+    not_proved="optimize (levels 1..3) now HAS a complete exact Lean model (Opt.lean, 986 lines, tied on ~290 000 "
+               "programs incl. every example program: 0 differences), but the behaviour preservation of its rebuild round "
+               "(symbolic state tracking, substitution, loop motion plumbing) is NOT yet a theorem (proof work in progress); "
+               "proved are its arithmetic cores and its dead store elimination pass, whose soundness hypotheses (AnalSound, "
                "NoDupTargets) are facts about the unmodelled rebuild round and are TESTED on every run (dsefacts: the "
                "verified boolean checker C01Dse.checkSound on the real analysis of every sampled program). For levels >= 1 "
                "the universal statement is NOT discharged; it is checked per program by comparing IR interpreter, bytecode "
@@ -194,6 +196,9 @@ PROPS["C01"] = dict(
          "x 4 widths x environments x IR interpreter/bytecode interpreter/JIT x levels {0,1,2,3,4,7} x {unlimited, "
          "limited 2^40}, each compared with the Lean canonical run (programs whose gate run exceeds 3000 loop "
          "iterations are skipped and counted); irparse/irrun: parser and IR interpreter vs their models at level 0; "
+         "optrun: THE WHOLE OPTIMIZER as a function — the IR printed after Program::parse(src).optimize(level), levels 1-3, "
+         "vs the exact Lean port Opt.optimize fed with the two observable hash-set iteration orders the Rust run used "
+         "(recorded by the trace hook and checked to be permutations of the model's sets), exact IR equality; "
          "optarith: every traced call of the optimizer's arithmetic cores vs OptArith; optdse: every (program, analysis) "
          "pair the optimizer's dead store elimination receives at levels 2,3 plus random IR with random analyses "
          "(incl. malformed analysis shapes that must panic) vs OptDse.eliminate, exact IR equality. "
